@@ -135,4 +135,15 @@ def jsonName (tag : Option Str) : Str :=
 
 def Str.toS (s : Str) : String := String.ofList s
 
+/-- `strings.ReplaceAll(s, "[]", "")` -/
+def removeBrackets : Str → Str
+  | '[' :: ']' :: rest => removeBrackets rest
+  | c :: rest => c :: removeBrackets rest
+  | [] => []
+
+/-- `strings.TrimPrefix(s, "*")` -/
+def dropStar : Str → Str
+  | '*' :: rest => rest
+  | s => s
+
 end PGT
